@@ -757,8 +757,9 @@ spif_mbuff_trim(spif_mbuff_t self)
     }
     start = self->buff;
     end = self->buff + self->len - 1;
-    for (; isspace((spif_uchar_t) (*start)) && (start < end); start++);
-    for (; isspace((spif_uchar_t) (*end)) && (start < end); end--);
+    /* A text made only of blanks lets the leading scan run past "end":  nothing is left of it. */
+    for (; (start <= end) && isspace((spif_uchar_t) (*start)); start++);
+    for (; (start < end) && isspace((spif_uchar_t) (*end)); end--);
     if (start > end) {
         return spif_mbuff_done(self);
     }
